@@ -2089,3 +2089,8 @@ MA('C08', 'conjugate of a scaled functional without the outer factor',
    'return self.scalar * self.functional.convex_conj * (1.0 / self.scalar)',
    'return self.functional.convex_conj * (1.0 / self.scalar)',
    'ConstantFunctional')
+MA('C15', 'single-node axis normalised by its zero-length cell',
+   'odl/discr/discr_utils.py', '_Interpolator._find_indices',
+   'if cvec.size == 1:...',
+   'norm_distances.append((xi - cvec[idcs]) / (cvec[idcs + 1] - cvec[idcs]))',
+   'R1s')
